@@ -151,7 +151,7 @@ macro_rules! dim_checks {
                 ensure_eq!(list[..0].iter().sum::<$V<S>>(), $V::<S>::zero(), "sum-empty", "empty Sum is zero()");
                 if d.chance(1, 12) {
                     // a long list (beyond any plausible block size): n copies of u interleaved with m copies of v
-                    let len = d.int(100, 300) as usize;
+                    let len = if d.chance(1, 3) { d.int(1000, 2600) } else { d.int(100, 300) } as usize;
                     let long: Vec<$V<S>> = (0..len).map(|j| if j % 3 == 1 { cv } else { cu }).collect();
                     let nv = (0..len).filter(|j| j % 3 == 1).count() as i64;
                     let nu = len as i64 - nv;
